@@ -25,24 +25,48 @@
 (*                      sender's subdomain                                *)
 (*   "KeepOldRecord"    a new pair is generated but an existing record    *)
 (*                      file is left alone                                *)
+(*   "SharedRecordFile" the name of the record file is derived from the   *)
+(*                      key file name by a map that is not injective for  *)
+(*                      key files of the "bare" naming class: the records *)
+(*                      of two configured domains land in one file, the   *)
+(*                      domain generated last wins                        *)
+(*                                                                         *)
+(* Files are named: cfg.tpl is the class of the key_path template ("key": *)
+(* the key file name ends in .key, the record replaces the suffix; "bare":*)
+(* any other name, the record file is the key file name + .dns).  The     *)
+(* record of domain d lives in the file RecFile(d); what the next hop     *)
+(* sees for d is the content of the file the operator was told to publish *)
+(* for d.  The spelling of the template inside a class, the spelling of   *)
+(* the domain names and a second modify.dkim instance (other selector)    *)
+(* working in the same directory are harness-only data dimensions: this   *)
+(* design does not depend on them (its record files are one per key).     *)
 (***************************************************************************)
 EXTENDS Naturals, Sequences, FiniteSets, TLC, Json
 
 CONSTANTS Algos,     \* key algorithms for newkey_algo
           MaxOps,    \* bound on the length of a history
           Devs,
-          Gen        \* TRUE: carry the history and print complete behaviours
+          Gen,       \* TRUE: carry the history and print complete behaviours
+          Wide       \* FALSE: only the naming class "key" (cheaper generation of histories: without deviations
+                     \* RecFile is the identity, the histories of the two classes differ in cfg.tpl only, so the
+                     \* quick tier generates one class and re-labels half of its sample; every check of an
+                     \* invariant and the thorough generation run with Wide = TRUE)
 
 Doms    == {"top", "second"}                                \* configurable signing domains
 \* sender classes: "upper" = top, upper-cased; "fold" = a foreign domain that differs from the configured
 \* "second" domain only by a full-case-folding expansion (sharp s against "ss"): not a configured domain
 Senders == {"top", "upper", "sub", "second", "other", "null", "fold"}
 DNames  == {"top", "sub", "second", "other", "fold"}         \* what a d= tag can name
-Configs == { [doms |-> <<"top">>, sub |-> FALSE], [doms |-> <<"top">>, sub |-> TRUE],
-             [doms |-> <<"top", "second">>, sub |-> FALSE], [doms |-> <<"second", "top">>, sub |-> FALSE] }
+Tpls    == {"key", "bare"}                                  \* naming class of the key_path template
+AllConfigs == { [doms |-> ds.doms, sub |-> ds.sub, tpl |-> t] :
+                  ds \in { [doms |-> <<"top">>, sub |-> FALSE], [doms |-> <<"top">>, sub |-> TRUE],
+                           [doms |-> <<"top", "second">>, sub |-> FALSE], [doms |-> <<"second", "top">>, sub |-> FALSE] },
+                  t \in Tpls }
+Configs == { c \in AllConfigs : Wide \/ c.tpl = "key" }
+RecFiles == Doms \cup {"shared"}                            \* record files that can exist in the key directory
 
 NoKey == [g |-> 0, a |-> "none"]
-NoRec == [g |-> 0, a |-> "none", ok |-> TRUE]
+NoRec == [g |-> 0, a |-> "none", ok |-> TRUE, of |-> "none"]   \* of: the domain whose key the record describes
 \* length order of the textual records: an RSA record is longer than an Ed25519 one, 4096 > 2048
 RecLen(a) == CASE a = "rsa4096" -> 3 [] a = "rsa2048" -> 2 [] a = "ed25519" -> 1 [] OTHER -> 0
 
@@ -51,7 +75,7 @@ RotClass(old, new) == IF RecLen(old) > RecLen(new) THEN "shrink"
 
 VARIABLES cfg,   \* the module's configuration
           kf,    \* kf[d]: key in the key file of domain d (generation, algorithm) or NoKey
-          dns,   \* dns[d]: content of the record file of d
+          dns,   \* dns[f]: content of the record file f
           mem,   \* mem[d]: key loaded by the running module instance
           run,   \* a module instance is initialised
           n,     \* steps so far
@@ -64,28 +88,35 @@ NoSig == [signed |-> FALSE, d |-> "none", verified |-> FALSE]
 
 InitWith(c) ==
   /\ cfg = c
-  /\ kf = [d \in Doms |-> NoKey] /\ dns = [d \in Doms |-> NoRec] /\ mem = [d \in Doms |-> NoKey]
+  /\ kf = [d \in Doms |-> NoKey] /\ dns = [f \in RecFiles |-> NoRec] /\ mem = [d \in Doms |-> NoKey]
   /\ run = FALSE /\ n = 0 /\ last = NoSig /\ hist = <<>>
 Init == \E c \in Configs : InitWith(c)
 
 Log(e) == hist' = IF Gen THEN Append(hist, e) ELSE hist
 
-NewRec(d, k) ==
-  IF "KeepOldRecord" \in Devs /\ dns[d] # NoRec THEN dns[d]
+\* the record file that belongs to the key file of domain d
+RecFile(d) == IF "SharedRecordFile" \in Devs /\ cfg.tpl = "bare" THEN "shared" ELSE d
+
+NewRec(f, d, k) ==
+  IF "KeepOldRecord" \in Devs /\ dns[f] # NoRec THEN dns[f]
   ELSE [g |-> k.g, a |-> k.a,
-        ok |-> ~("StaleRecordTail" \in Devs /\ RecLen(dns[d].a) > RecLen(k.a))]
+        ok |-> ~("StaleRecordTail" \in Devs /\ RecLen(dns[f].a) > RecLen(k.a)), of |-> d]
 
 Start(a) ==
   /\ n < MaxOps
-  /\ LET fresh(d) == [g |-> dns[d].g + 1, a |-> a]     \* generations are counted by the record file
+  /\ LET fresh(d) == [g |-> dns[RecFile(d)].g + 1, a |-> a]     \* generations are counted by the record file
          key(d)   == IF kf[d] = NoKey THEN fresh(d) ELSE kf[d]
+         \* the configured domains are handled one after the other: the last writer of a file wins
+         writers(f) == SelectSeq(cfg.doms, LAMBDA d : kf[d] = NoKey /\ RecFile(d) = f)
      IN /\ kf'  = [d \in Doms |-> IF d \in ToSet(cfg.doms) THEN key(d) ELSE kf[d]]
-        /\ dns' = [d \in Doms |-> IF d \in ToSet(cfg.doms) /\ kf[d] = NoKey THEN NewRec(d, fresh(d)) ELSE dns[d]]
+        /\ dns' = [f \in RecFiles |-> IF writers(f) = <<>> THEN dns[f]
+                                      ELSE LET d == writers(f)[Len(writers(f))] IN NewRec(f, d, fresh(d))]
         /\ mem' = [d \in Doms |-> IF d \in ToSet(cfg.doms) THEN key(d) ELSE NoKey]
   /\ run' = TRUE /\ n' = n + 1
   \* rot: for the sampling of histories only (which kinds of rotation this start performed)
   /\ Log([e |-> "Start", algo |-> a,
-          rot |-> {RotClass(dns[d].a, a) : d \in {x \in ToSet(cfg.doms) : kf[x] = NoKey /\ dns[x] # NoRec}}])
+          rot |-> {RotClass(dns[RecFile(d)].a, a) :
+                     d \in {x \in ToSet(cfg.doms) : kf[x] = NoKey /\ dns[RecFile(x)] # NoRec}}])
   /\ UNCHANGED <<cfg, last>>
 
 RemoveKey(d) ==
@@ -102,13 +133,14 @@ KeyDomain(s) ==
   IF sd = "sub" THEN (IF cfg.sub /\ cfg.doms[1] = "top" THEN "top" ELSE "none")
   ELSE IF sd \in ToSet(cfg.doms) THEN sd ELSE "none"
 DTag(s) == IF "SubdomainD" \in Devs THEN SenderDom(s) ELSE KeyDomain(s)
-Published(d) == IF d \in Doms THEN dns[d] ELSE NoRec     \* the zone holds exactly the record files
-Matches(rec, k) == rec # NoRec /\ rec.ok /\ rec.g = k.g /\ rec.a = k.a
+\* the zone holds exactly the record files: for d, the file maddy named for d's key
+Published(d) == IF d \in Doms THEN dns[RecFile(d)] ELSE NoRec
+Matches(rec, k, d) == rec # NoRec /\ rec.ok /\ rec.g = k.g /\ rec.a = k.a /\ rec.of = d
 
 SigOf(s) ==
   LET kd == KeyDomain(s) IN
   IF kd = "none" \/ mem[kd] = NoKey THEN NoSig
-  ELSE [signed |-> TRUE, d |-> DTag(s), verified |-> Matches(Published(DTag(s)), mem[kd])]
+  ELSE [signed |-> TRUE, d |-> DTag(s), verified |-> Matches(Published(DTag(s)), mem[kd], DTag(s))]
 
 Sign(s) ==
   /\ n < MaxOps /\ run
@@ -133,7 +165,7 @@ Spec == Init /\ [][Next]_vars
 SigViol(sig) == IF sig.signed /\ ~sig.verified THEN {"SignatureDoesNotMatchPublishedKey"} ELSE {}
 SignedVerifies == SigViol(last) = {}
 \* the loaded key of a configured domain is always the one the record file describes
-LoadedIsPublished == \A d \in Doms : (run /\ mem[d] # NoKey) => Matches(dns[d], mem[d])
+LoadedIsPublished == \A d \in Doms : (run /\ mem[d] # NoKey) => Matches(dns[RecFile(d)], mem[d], d)
 TypeOK == /\ n \in 0..MaxOps /\ run \in BOOLEAN /\ cfg \in Configs
           /\ last.d \in DNames \cup {"none"}
 
